@@ -31,7 +31,7 @@ func specWireLen(w enc.Wire, k int) int {
 }
 
 // specSegCount: number of segments of an object of size bytes: ceil(size / segment size).
-func specSegCount(size int) int { return (size + pSegmentSize - 1) / pSegmentSize }
+func specSegCount(size int) int { return (size + 7999) / 8000 }
 
 // A-MEM (DESIGN.md section 6): the buffers reachable from one value total less than 2^48 bytes, so prefix sums
 // of buffer lengths are non-negative, monotone and do not wrap. Assumed, not proved.
@@ -53,43 +53,86 @@ func lemmaWireLenMono(w enc.Wire, j, i int) {}
 //@   trusted
 //@   ensures result1 == nil ==> result0 != nil
 
-// (*Client).Produce, segmentation loop. The segments are not returned (they are handed to Spec().MakeData and
-// store.Put), so the property is stated as invariants of the two nested loops. With
-//     W = args.Content (as at entry), i = index in W of the buffer being cut = sliceOff(content)-sliceOff(W),
-//     consumed = specWireLen(W, i) + (bytes already cut off W[i]),
-// the invariants say:
-//   * content is the not yet consumed suffix of W, content[0] is a suffix of the buffer W[i] (same backing array:
+// (*Client).Produce, segmentation. The segments are not returned (they are handed to Spec().MakeData and
+// store.Put), so the property is stated as loop invariants plus assertions at the places where a segment is handed
+// over. Notation:
+//     W = args.Content as at entry (old), I = index in W of the buffer being cut = sliceOff(content)-sliceOff(W),
+//     consumed = specWireLen(W, I) + (bytes already cut off W[I]) = specWireLen(W, I+1) - len(content[0]).
+// Empty input buffers are allowed anywhere (the property quantifies over every split of the content).
+// Loops: 1 = size summation, 2 = one segment per iteration, 3 = cut pieces off the input till the segment is full,
+//        4 = skip empty buffers (added by fix 7004697).
+// Invariants:
+//   * content is the not yet consumed suffix of W and content[0] is a suffix of the buffer W[I] (same backing array:
 //     every piece appended to a segment is a sub-slice of an input buffer, in order, without gap or overlap);
-//   * at the head of the outer loop consumed == seg*8000 while input remains: every segment but the last has
-//     exactly 8000 bytes; in the inner loop consumed == seg*8000 + segContentSize and segContentSize <= 8000;
-//   * when the input is exhausted consumed == contentSize and seg == lastSeg+1 == ceil(contentSize/8000).
+//   * loop 2 head: consumed == seg*8000 (every earlier segment has exactly 8000 bytes), and input bytes remain iff
+//     len(content) > 0, so another segment is started only if it will be non-empty (no extra segment);
+//   * loop 3: consumed == seg*8000 + segContentSize, 0 <= segContentSize <= 8000, the sum of the piece lengths of
+//     segContent is segContentSize;
+//   * loop 4: as loop 3 after its exit: 0 < segContentSize <= 8000 and == 8000 while input buffers remain.
+// Assertions:
+//   * [piece] before each append to segContent: the piece starts at byte number seg*8000+segContentSize of the input
+//     concatenation (in its buffer W[I], at offset consumed - specWireLen(W, I)): in order, byte for byte;
+//   * at store.Put of a segment (same values as at MakeData two calls earlier: nothing in between writes locals):
+//     segment index <= lastSeg == ceil(size/8000)-1, size in 1..8000, == 8000 unless last, the last one ends the content,
+//     the name is basename (= args.Name + version component, [basename]) + segment component of seg ([seg-name],
+//     [seg-name-base]), FinalBlockId is the segment component of lastSeg ([fbid]);
+//   * after the loop: seg == lastSeg+1 == ceil(size/8000) segments were produced.
 //
 //@ func (*Client).Produce
 //@   uses lemmaWireLenMono
 //@   requires c.engine != nil && c.store != nil
-//@   requires [no-empty-buffer] forallIn(0, len(args.Content), func(j int) bool { return len(args.Content[j]) > 0 && specWireLen(args.Content, j) >= 0 })
 //@   modifies args.Content[*]
+//@   ensures [versioned-name] result1 == nil ==> len(result0) == len(args.Name)+1 && result0[len(args.Name)].Typ == enc.TypeVersionNameComponent
+//@   ensures [given-version] result1 == nil && args.Version != nil ==> enc.specNatVal(result0[len(args.Name)].Val, 0, len(result0[len(args.Name)].Val)) == old(*args.Version)
+//@   ensures [name-prefix] result1 == nil ==> forallIn(0, len(args.Name), func(j int) bool { return result0[j].Typ == old(args.Name[j].Typ) && sameSlice(result0[j].Val, old(args.Name[j].Val)) })
+//@   option loop-cut-3 loop-cut-4
 //@   loop 1 invariant contentSize == old(specWireLen(args.Content, rangeindex+1))
-//@   loop 2 invariant contentSize == old(specWireLen(args.Content, len(args.Content))) && contentSize > 0 && lastSeg == uint64((contentSize-1)/8000)
-//@   loop 2 invariant sliceArr(content) == sliceArr(args.Content) && sliceOff(content) >= sliceOff(args.Content) && sliceOff(content)-sliceOff(args.Content)+len(content) == len(args.Content)
+//@   loop 2 invariant [suffix-of-input] sliceArr(content) == sliceArr(args.Content) && sliceOff(content) >= sliceOff(args.Content) && sliceOff(content)-sliceOff(args.Content)+len(content) == len(args.Content)
 //@   loop 2 invariant [rest-untouched] unchangedExcept(args.Content, 0, sliceOff(content)-sliceOff(args.Content)+1)
-//@   loop 2 invariant [nonempty] len(content) > 0 ==> len(content[0]) > 0 && old(specWireLen(args.Content, sliceOff(content)-sliceOff(args.Content))) >= 0
 //@   loop 2 invariant [same-buffer] len(content) > 0 ==> sliceArr(content[0]) == old(sliceArr(args.Content[sliceOff(content)-sliceOff(args.Content)]))
-//@   loop 2 invariant [buffer-suffix] len(content) > 0 ==> sliceOff(content[0])+len(content[0]) == old(sliceOff(args.Content[sliceOff(content)-sliceOff(args.Content)])+len(args.Content[sliceOff(content)-sliceOff(args.Content)]))
-//@   loop 2 invariant len(content) > 0 ==> len(content[0]) <= old(len(args.Content[sliceOff(content)-sliceOff(args.Content)]))
-//@   loop 2 invariant [full-segments] len(content) > 0 ==> old(specWireLen(args.Content, sliceOff(content)-sliceOff(args.Content)+1)) - len(content[0]) == int(seg)*8000
+//@   loop 2 invariant [buffer-suffix] len(content) > 0 ==> sliceOff(content[0])+len(content[0]) == old(sliceOff(args.Content[sliceOff(content)-sliceOff(args.Content)])+len(args.Content[sliceOff(content)-sliceOff(args.Content)])) && len(content[0]) <= old(len(args.Content[sliceOff(content)-sliceOff(args.Content)]))
+//@   loop 2 invariant [basename] len(basename) == len(args.Name)+1 && basename[len(args.Name)].Typ == enc.TypeVersionNameComponent && enc.specNatVal(basename[len(args.Name)].Val, 0, len(basename[len(args.Name)].Val)) == version && (args.Version != nil ==> version == *args.Version)
+//@   loop 2 invariant [basename-prefix] forallIn(0, len(args.Name), func(j int) bool { return basename[j].Typ == old(args.Name[j].Typ) && sameSlice(basename[j].Val, old(args.Name[j].Val)) })
+//@   loop 2 invariant [size] contentSize == old(specWireLen(args.Content, len(args.Content))) && contentSize > 0 && lastSeg == uint64((contentSize-1)/8000) && contentSize <= 281474976710656
+//@   loop 2 invariant [full-segments] len(content) > 0 ==> old(specWireLen(args.Content, sliceOff(content)-sliceOff(args.Content)+1)) - len(content[0]) == int(seg)*8000 && int(seg)*8000 < contentSize && seg <= lastSeg
 //@   loop 2 invariant [count] len(content) == 0 ==> seg == lastSeg+1 && int(seg) == specSegCount(contentSize)
-//@   loop 2 invariant seg <= lastSeg+1
-//@   loop 3 invariant sliceArr(content) == sliceArr(args.Content) && sliceOff(content) >= sliceOff(args.Content) && sliceOff(content)-sliceOff(args.Content)+len(content) == len(args.Content)
+//@   loop 2 invariant [fbid] cfg != nil && cfg.FinalBlockID != nil && cfg.FinalBlockID.Typ == enc.TypeSegmentNameComponent && enc.specNatVal(cfg.FinalBlockID.Val, 0, len(cfg.FinalBlockID.Val)) == lastSeg
+//@   loop 3 invariant [suffix-of-input] sliceArr(content) == sliceArr(args.Content) && sliceOff(content) >= sliceOff(args.Content) && sliceOff(content)-sliceOff(args.Content)+len(content) == len(args.Content)
 //@   loop 3 invariant [rest-untouched] unchangedExcept(args.Content, 0, sliceOff(content)-sliceOff(args.Content)+1)
-//@   loop 3 invariant [nonempty] len(content) > 0 ==> len(content[0]) > 0 && old(specWireLen(args.Content, sliceOff(content)-sliceOff(args.Content))) >= 0
 //@   loop 3 invariant [same-buffer] len(content) > 0 ==> sliceArr(content[0]) == old(sliceArr(args.Content[sliceOff(content)-sliceOff(args.Content)]))
-//@   loop 3 invariant [buffer-suffix] len(content) > 0 ==> sliceOff(content[0])+len(content[0]) == old(sliceOff(args.Content[sliceOff(content)-sliceOff(args.Content)])+len(args.Content[sliceOff(content)-sliceOff(args.Content)]))
-//@   loop 3 invariant len(content) > 0 ==> len(content[0]) <= old(len(args.Content[sliceOff(content)-sliceOff(args.Content)]))
-//@   loop 3 invariant 0 <= segContentSize && segContentSize <= 8000
+//@   loop 3 invariant [buffer-suffix] len(content) > 0 ==> sliceOff(content[0])+len(content[0]) == old(sliceOff(args.Content[sliceOff(content)-sliceOff(args.Content)])+len(args.Content[sliceOff(content)-sliceOff(args.Content)])) && len(content[0]) <= old(len(args.Content[sliceOff(content)-sliceOff(args.Content)]))
+//@   loop 3 invariant [basename] len(basename) == len(args.Name)+1 && basename[len(args.Name)].Typ == enc.TypeVersionNameComponent && enc.specNatVal(basename[len(args.Name)].Val, 0, len(basename[len(args.Name)].Val)) == version && (args.Version != nil ==> version == *args.Version)
+//@   loop 3 invariant [seg-name] len(name) == len(args.Name)+2 && name[len(args.Name)+1].Typ == enc.TypeSegmentNameComponent && enc.specNatVal(name[len(args.Name)+1].Val, 0, len(name[len(args.Name)+1].Val)) == seg
+//@   loop 3 invariant [seg-name-base] len(name) == len(args.Name)+2 && name[len(args.Name)].Typ == basename[len(args.Name)].Typ && sameSlice(name[len(args.Name)].Val, basename[len(args.Name)].Val)
+//@   loop 3 invariant [basename-prefix] forallIn(0, len(args.Name), func(j int) bool { return basename[j].Typ == old(args.Name[j].Typ) && sameSlice(basename[j].Val, old(args.Name[j].Val)) })
+//@   loop 3 invariant [size] contentSize == old(specWireLen(args.Content, len(args.Content))) && contentSize > 0 && lastSeg == uint64((contentSize-1)/8000) && contentSize <= 281474976710656
+//@   loop 3 invariant [fbid] cfg != nil && cfg.FinalBlockID != nil && cfg.FinalBlockID.Typ == enc.TypeSegmentNameComponent && enc.specNatVal(cfg.FinalBlockID.Val, 0, len(cfg.FinalBlockID.Val)) == lastSeg
+//@   loop 3 invariant [seg-bound] 0 <= segContentSize && segContentSize <= 8000 && seg <= lastSeg && int(seg)*8000 < contentSize
 //@   loop 3 invariant fresh(segContent) && sliceArr(segContent) != sliceArr(args.Content)
 //@   loop 3 invariant [segment-bytes] len(content) > 0 ==> old(specWireLen(args.Content, sliceOff(content)-sliceOff(args.Content)+1)) - len(content[0]) == int(seg)*8000 + segContentSize
-//@   loop 3 invariant [last-segment] len(content) == 0 ==> contentSize == int(seg)*8000 + segContentSize && segContentSize > 0
+//@   loop 3 invariant [last-segment] len(content) == 0 ==> contentSize == int(seg)*8000 + segContentSize
+//@   loop 4 invariant [suffix-of-input] sliceArr(content) == sliceArr(args.Content) && sliceOff(content) >= sliceOff(args.Content) && sliceOff(content)-sliceOff(args.Content)+len(content) == len(args.Content)
+//@   loop 4 invariant [rest-untouched] unchangedExcept(args.Content, 0, sliceOff(content)-sliceOff(args.Content)+1)
+//@   loop 4 invariant [same-buffer] len(content) > 0 ==> sliceArr(content[0]) == old(sliceArr(args.Content[sliceOff(content)-sliceOff(args.Content)]))
+//@   loop 4 invariant [buffer-suffix] len(content) > 0 ==> sliceOff(content[0])+len(content[0]) == old(sliceOff(args.Content[sliceOff(content)-sliceOff(args.Content)])+len(args.Content[sliceOff(content)-sliceOff(args.Content)])) && len(content[0]) <= old(len(args.Content[sliceOff(content)-sliceOff(args.Content)]))
+//@   loop 4 invariant [basename] len(basename) == len(args.Name)+1 && basename[len(args.Name)].Typ == enc.TypeVersionNameComponent && enc.specNatVal(basename[len(args.Name)].Val, 0, len(basename[len(args.Name)].Val)) == version && (args.Version != nil ==> version == *args.Version)
+//@   loop 4 invariant [seg-name] len(name) == len(args.Name)+2 && name[len(args.Name)+1].Typ == enc.TypeSegmentNameComponent && enc.specNatVal(name[len(args.Name)+1].Val, 0, len(name[len(args.Name)+1].Val)) == seg
+//@   loop 4 invariant [seg-name-base] len(name) == len(args.Name)+2 && name[len(args.Name)].Typ == basename[len(args.Name)].Typ && sameSlice(name[len(args.Name)].Val, basename[len(args.Name)].Val)
+//@   loop 4 invariant [basename-prefix] forallIn(0, len(args.Name), func(j int) bool { return basename[j].Typ == old(args.Name[j].Typ) && sameSlice(basename[j].Val, old(args.Name[j].Val)) })
+//@   loop 4 invariant [size] contentSize == old(specWireLen(args.Content, len(args.Content))) && contentSize > 0 && lastSeg == uint64((contentSize-1)/8000) && contentSize <= 281474976710656
+//@   loop 4 invariant [fbid] cfg != nil && cfg.FinalBlockID != nil && cfg.FinalBlockID.Typ == enc.TypeSegmentNameComponent && enc.specNatVal(cfg.FinalBlockID.Val, 0, len(cfg.FinalBlockID.Val)) == lastSeg
+//@   loop 4 invariant [seg-bound] 0 < segContentSize && segContentSize <= 8000 && seg <= lastSeg && int(seg)*8000 < contentSize
+//@   loop 4 invariant [full-if-more] len(content) > 0 ==> segContentSize == 8000
+//@   loop 4 invariant [segment-bytes] len(content) > 0 ==> old(specWireLen(args.Content, sliceOff(content)-sliceOff(args.Content)+1)) - len(content[0]) == int(seg)*8000 + segContentSize
+//@   loop 4 invariant [last-segment] len(content) == 0 ==> contentSize == int(seg)*8000 + segContentSize
+//@   assert before append@4 [piece] sliceArr(newContent) == old(sliceArr(args.Content[sliceOff(content)-sliceOff(args.Content)])) && old(specWireLen(args.Content, sliceOff(content)-sliceOff(args.Content))) + sliceOff(newContent) - old(sliceOff(args.Content[sliceOff(content)-sliceOff(args.Content)])) == int(seg)*8000 + segContentSize && len(newContent) <= 8000 - segContentSize
+//@   assert before store.Put@2 [seg-name] len(name) == len(args.Name)+2 && name[len(args.Name)+1].Typ == enc.TypeSegmentNameComponent && enc.specNatVal(name[len(args.Name)+1].Val, 0, len(name[len(args.Name)+1].Val)) == seg
+//@   assert before store.Put@2 [seg-name-base] len(name) == len(args.Name)+2 && name[len(args.Name)].Typ == basename[len(args.Name)].Typ && sameSlice(name[len(args.Name)].Val, basename[len(args.Name)].Val)
+//@   assert before store.Put@2 [seg-index] seg <= lastSeg && int(lastSeg) == specSegCount(contentSize) - 1
+//@   assert before store.Put@2 [seg-size] 0 < segContentSize && segContentSize <= 8000
+//@   assert before store.Put@2 [full-unless-last] seg < lastSeg ==> segContentSize == 8000
+//@   assert before store.Put@2 [last-ends-content] seg == lastSeg ==> int(seg)*8000 + segContentSize == contentSize
+//@   assert before NewStringComponent@1 [segment-count] int(seg) == specSegCount(contentSize) && seg == lastSeg+1
 
 // ---- store_memory.go ------------------------------------------------------------------------------------
 //
@@ -108,47 +151,114 @@ func lemmaWireLenMono(w enc.Wire, j, i int) {}
 //@   ensures len(name) == 1 && n.children != nil ==> result == n.children[basic.specCompKey(name[0])]
 //@   ensures len(name) > 0 && n.children != nil && n.children[basic.specCompKey(name[0])] == nil ==> result == nil
 
-// insert at the node itself stores exactly the given packet and version ("what is put is what is served").
+// Tree shape of the store, as far as a per-call contract can say it without ghost fields: every linked child was
+// allocated after its parent ([tree]; olderThan compares allocation order, which is a well-founded rank, so a node is
+// never its own descendant) and two nodes never share a children map ([unshared]). Both hold for every tree built by
+// insert: a child is allocated while its parent exists, every map is made for one node.
+//
+// insert: the node addressed by `name` below n gets exactly the given packet and version ("what is put is what is
+// served"), the first child on the path is linked, and nothing that is not below n is touched ([frame]: nodes that are
+// not younger than n keep packet, version, children map and its content).
 //
 //@ func (*memoryStoreNode).insert
+//@   option heap-closedness
+//@   requires [tree] forall(func(x *memoryStoreNode) bool { return forall(func(k string) bool { return x.children[k] != nil ==> olderThan(x, x.children[k]) }) })
+//@   requires [unshared] forall(func(x *memoryStoreNode) bool { return forall(func(y *memoryStoreNode) bool { return x != y && x.children != nil ==> x.children != y.children }) })
+//@   requires [no-nil-child] forall(func(x *memoryStoreNode) bool { return forall(func(k string) bool { return mapHas(x.children, k) ==> x.children[k] != nil }) })
 //@   modifies all(memoryStoreNode), all(memoryStoreKids)
 //@   decreases len(name)
-//@   ensures len(name) == 0 ==> sameSlice(n.wire, wire) && n.version == version
-//@   ensures len(name) > 0 ==> n.children != nil && n.children[basic.specCompKey(name[0])] != nil
-//@   ensures len(name) > 0 ==> sameSlice(n.wire, old(n.wire)) && n.version == old(n.version)
+//@   ensures [tree] forall(func(x *memoryStoreNode) bool { return forall(func(k string) bool { return x.children[k] != nil ==> olderThan(x, x.children[k]) }) })
+//@   ensures [no-nil-child] forall(func(x *memoryStoreNode) bool { return forall(func(k string) bool { return mapHas(x.children, k) ==> x.children[k] != nil }) })
+//@   ensures [unshared] forall(func(x *memoryStoreNode) bool { return forall(func(y *memoryStoreNode) bool { return x != y && x.children != nil ==> x.children != y.children }) })
+//@   ensures [stored] len(name) == 0 ==> sameSlice(n.wire, wire) && n.version == version
+//@   ensures [linked] len(name) > 0 ==> n.children != nil && n.children[basic.specCompKey(name[0])] != nil
+//@   ensures [own-packet-kept] len(name) > 0 ==> sameSlice(n.wire, old(n.wire)) && n.version == old(n.version)
+//@   ensures [frame] forall(func(x *memoryStoreNode) bool { return !olderThan(n, x) && x != n ==> sameSlice(x.wire, old(x.wire)) && x.version == old(x.version) && x.children == old(x.children) && forall(func(k string) bool { return x.children[k] == old(x.children[k]) }) })
 
-// remove: "packets removed from a store are no longer served": the addressed node loses its packet, and with
-// prefix=true its whole subtree; the result tells the parent whether the node may be pruned, which is only allowed
-// for a node that serves nothing (no packet, no children).
+// remove: "packets removed from a store are no longer served". The addressed node loses its packet and version, and
+// with prefix=true its whole subtree is unlinked; one level up (len(name) == 1, the general case follows by the
+// recursion) the child either is unlinked from the map or stays without a packet, and with prefix=true it is always
+// unlinked. The result tells the parent whether the node may be pruned, which is only allowed for a node that serves
+// nothing (no packet, no children). Nothing outside the subtree of n is touched ([frame]).
 //
 //@ func (*memoryStoreNode).remove
+//@   requires [tree] forall(func(x *memoryStoreNode) bool { return forall(func(k string) bool { return x.children[k] != nil ==> olderThan(x, x.children[k]) }) })
+//@   requires [unshared] forall(func(x *memoryStoreNode) bool { return forall(func(y *memoryStoreNode) bool { return x != y && x.children != nil ==> x.children != y.children }) })
+//@   requires [no-nil-child] forall(func(x *memoryStoreNode) bool { return forall(func(k string) bool { return mapHas(x.children, k) ==> x.children[k] != nil }) })
 //@   modifies all(memoryStoreNode), all(memoryStoreKids)
 //@   decreases len(name)
-//@   ensures len(name) == 0 ==> n.wire == nil && n.version == 0
-//@   ensures len(name) == 0 && prefix ==> n.children == nil
+//@   ensures [tree] forall(func(x *memoryStoreNode) bool { return forall(func(k string) bool { return x.children[k] != nil ==> olderThan(x, x.children[k]) }) })
+//@   ensures [no-nil-child] forall(func(x *memoryStoreNode) bool { return forall(func(k string) bool { return mapHas(x.children, k) ==> x.children[k] != nil }) })
+//@   ensures [unshared] forall(func(x *memoryStoreNode) bool { return forall(func(y *memoryStoreNode) bool { return x != y && x.children != nil ==> x.children != y.children }) })
+//@   ensures [packet-gone] len(name) == 0 ==> n.wire == nil && n.version == 0
+//@   ensures [prefix-unlinks-subtree] len(name) == 0 && prefix ==> n.children == nil
 //@   ensures [prune-only-empty] result ==> n.wire == nil && len(n.children) == 0
-//@   ensures len(name) > 0 ==> sameSlice(n.wire, old(n.wire)) && n.version == old(n.version)
+//@   ensures [prune-iff-empty] len(name) == 0 && prefix ==> result
+//@   ensures [own-packet-kept] len(name) > 0 ==> sameSlice(n.wire, old(n.wire)) && n.version == old(n.version)
+//@   ensures [child-not-served] len(name) == 1 && n.children != nil && n.children[basic.specCompKey(name[0])] != nil ==> n.children[basic.specCompKey(name[0])] == old(n.children[basic.specCompKey(name[0])]) && n.children[basic.specCompKey(name[0])].wire == nil && n.children[basic.specCompKey(name[0])].version == 0
+//@   ensures [prefix-unlinks-child] len(name) == 1 && prefix && n.children != nil ==> n.children[basic.specCompKey(name[0])] == nil && !mapHas(n.children, basic.specCompKey(name[0]))
+//@   ensures [other-children-kept] len(name) > 0 ==> n.children == old(n.children) && forall(func(k string) bool { return k != basic.specCompKey(name[0]) ==> n.children[k] == old(n.children[k]) })
+//@   ensures [frame] forall(func(x *memoryStoreNode) bool { return !olderThan(n, x) && x != n ==> sameSlice(x.wire, old(x.wire)) && x.version == old(x.version) && x.children == old(x.children) && forall(func(k string) bool { return x.children[k] == old(x.children[k]) }) })
+
+// findNewest: "a prefix query returns the newest version". Per call: the result is a node of the subtree that is at
+// least as new as n's own packet and as the newest node found below every child (hence, by the same clause one level
+// down, as every child's own packet); it is n itself unless something strictly newer exists below.
+// Needs the children maps free of nil entries ([no-nil-child], kept by insert/remove: find tolerates nil entries,
+// findNewest does not) and the tree shape for termination.
+//
+//@ func (*memoryStoreNode).findNewest
+//@   requires [tree] forall(func(x *memoryStoreNode) bool { return forall(func(k string) bool { return x.children[k] != nil ==> olderThan(x, x.children[k]) }) })
+//@   requires [no-nil-child] forall(func(x *memoryStoreNode) bool { return forall(func(k string) bool { return mapHas(x.children, k) ==> x.children[k] != nil }) })
+//@   ensures [found] result != nil && (result == n || olderThan(n, result))
+//@   ensures [newest-own] result.version >= n.version && (result != n ==> result.version > n.version)
+//@   ensures [newest-children] forall(func(k string) bool { return mapHas(n.children, k) ==> result.version >= n.children[k].version })
+//@   loop 1 invariant [tree] forall(func(x *memoryStoreNode) bool { return forall(func(k string) bool { return x.children[k] != nil ==> olderThan(x, x.children[k]) }) })
+//@   loop 1 invariant [no-nil-child] forall(func(x *memoryStoreNode) bool { return forall(func(k string) bool { return mapHas(x.children, k) ==> x.children[k] != nil }) })
+//@   loop 1 invariant known != nil && (known == n || olderThan(n, known)) && known.version >= n.version && (known != n ==> known.version > n.version)
+//@   loop 1 invariant forall(func(k string) bool { return visited(k) ==> known.version >= n.children[k].version })
 
 type memoryStoreKids = map[string]*memoryStoreNode
 
 // ---- client_consume_seg.go: window bookkeeping of the segment fetcher ---------------------------------------
+//
+// Inside the subset: the sequential effect of ONE handleData call on the consumer state (A-SEQ: check() and handleData()
+// run on the single goroutine of the client loop). Outside the subset (not claimed here): queueCheck (select on a
+// channel), doCheck (defer, closure sending on a channel), ExpressR (timers, retransmission, callbacks on the engine's
+// goroutine), what the user callback does, and the Bolt store (external database). "Exactly one completion callback"
+// is therefore stated as state facts: a complete state is never touched again ([done-is-final]), complete is set only
+// together with an error or with the window at segCnt ([complete-iff-all]).
 
 // wfConsume: the receive window of a consumer state: 0 <= wnd[0] <= wnd[1] <= segCnt once the segment count is
-// known, the reassembly buffer has one slot per segment, and every slot below wnd[1] is filled.
+// known, the reassembly buffer has one slot per segment, and every slot of the not yet consumed, already contiguous
+// range [wnd[0], wnd[1]) is filled (slots below wnd[0] were handed out and freed by Content()).
 func wfConsume(st *ConsumeState) bool {
 	return 0 <= (&st.wnd)[0] && (&st.wnd)[0] <= (&st.wnd)[1] &&
 		implies(st.segCnt == -1, (&st.wnd)[1] == 0) &&
 		implies(st.segCnt != -1, 0 < st.segCnt && (&st.wnd)[1] <= st.segCnt && len(st.content) == st.segCnt &&
-			forallIn(0, (&st.wnd)[1], func(j int) bool { return st.content[j] != nil }))
+			forallIn((&st.wnd)[0], (&st.wnd)[1], func(j int) bool { return st.content[j] != nil }))
 }
+
+// A-DEP: accessors of a received Data packet are functions of the packet. A Data that satisfies an Interest carries a
+// name that has the Interest's name as a prefix (PIT matching in the engine), and every segment Interest has at least
+// the segment component: the name of the Data handed to handleData is not empty ([data-name] below).
+//
+//@ func (github.com/named-data/ndnd/std/ndn.Data).Name
+//@   pure
 
 //@ func (*rrSegFetcher).handleData
 //@   requires state != nil && wfConsume(state) && state.callback != nil
+//@   requires [error-completes] state.err != nil ==> state.complete
 //@   requires args.Result == ndn.InterestResultData ==> args.Data != nil
+//@   requires [data-name] args.Result == ndn.InterestResultData ==> len(args.Data.Name()) > 0
 //@   modifies s.outstanding, deep(state), state.content[*], s.streams, all([]int)
 //@   ensures [window-wf] state.err == nil ==> wfConsume(state)
-//@   ensures old(state.complete) ==> state.complete && (&state.wnd)[1] == old((&state.wnd)[1])
+//@   ensures [done-is-final] old(state.complete) ==> state.complete && state.err == old(state.err) && state.segCnt == old(state.segCnt) && (&state.wnd)[1] == old((&state.wnd)[1]) && sameSlice(state.content, old(state.content)) && unchangedExcept(state.content, 0, 0)
 //@   ensures [complete-iff-all] !old(state.complete) && state.complete && state.err == nil ==> (&state.wnd)[1] == state.segCnt
-//@   ensures (&state.wnd)[0] == old((&state.wnd)[0]) && (&state.wnd)[1] >= old((&state.wnd)[1])
-//@   loop 1 invariant state.segCnt != -1 && 0 < state.segCnt && len(state.content) == state.segCnt && old((&state.wnd)[1]) <= (&state.wnd)[1] && (&state.wnd)[1] <= state.segCnt && (&state.wnd)[0] == old((&state.wnd)[0])
-//@   loop 1 invariant forallIn(0, (&state.wnd)[1], func(j int) bool { return state.content[j] != nil })
+//@   ensures [all-completes] state.err == nil && state.segCnt != -1 && (&state.wnd)[1] == state.segCnt && (&state.wnd)[1] > old((&state.wnd)[1]) ==> state.complete
+//@   ensures [error-completes] state.err != nil ==> state.complete
+//@   ensures [window-monotone] (&state.wnd)[0] == old((&state.wnd)[0]) && (&state.wnd)[1] >= old((&state.wnd)[1]) && (&state.wnd)[2] == old((&state.wnd)[2])
+//@   ensures [segcnt-fixed] old(state.segCnt) != -1 ==> state.segCnt == old(state.segCnt) && sameSlice(state.content, old(state.content))
+//@   ensures [no-skip] state.err == nil && (&state.wnd)[1] < state.segCnt && state.segCnt != -1 ==> state.content[(&state.wnd)[1]] == nil || (&state.wnd)[1] == old((&state.wnd)[1])
+//@   loop 1 invariant state.segCnt != -1 && 0 < state.segCnt && len(state.content) == state.segCnt && old((&state.wnd)[1]) <= (&state.wnd)[1] && (&state.wnd)[1] <= state.segCnt && (&state.wnd)[0] == old((&state.wnd)[0]) && (&state.wnd)[2] == old((&state.wnd)[2])
+//@   loop 1 invariant forallIn((&state.wnd)[0], (&state.wnd)[1], func(j int) bool { return state.content[j] != nil })
+//@   loop 1 invariant !state.complete && state.err == nil && (old(state.segCnt) != -1 ==> state.segCnt == old(state.segCnt) && sameSlice(state.content, old(state.content)))
